@@ -46,6 +46,37 @@ def rowop_groups(tier, props=("C13", "C09", "C10", "C11")):
     return gs
 
 
+def combine_groups(tier, props=("C13", "C09", "C11", "C12"), config="host", widths=None):
+    """mzd_combine_even / _in_place / mzd_combine (the word kernels behind every row addition) and mzd_copy_row"""
+    gs = []
+    q = tier == "quick"
+    ncs = widths or ([60, 128, 190, 320, 445, 640, 700] if q else [1, 60, 64, 128, 190, 192, 256, 320, 384, 445, 512, 576, 640, 700, 832, 1000])
+    for nc in ncs:
+        w = (nc + 63) // 64
+        for mode, fn in (("COMBINE_EVEN", "mzd_combine_even"), ("COMBINE_EVEN_IN_PLACE", "mzd_combine_even_in_place"), ("COMBINE", "mzd_combine")):
+            for kind, bkind in (("owned", "owned"), ("view1", "view0"), ("view0", "view1")) if not q else (("owned", "view1"), ("view1", "owned")):
+                sbs = [0] + ([1] if w >= 3 else [])
+                for sb in sbs:
+                    for alias in ([0, 1] if mode == "COMBINE" else [0]):
+                        d = mat(2, nc, kind)
+                        b = mat(2, nc, bkind, "B_")
+                        b.pop("B_NR"), b.pop("B_NC")
+                        dd = {**d, **b, "H_" + mode: None, "ASB": sb, "BSB": sb, "CSB": sb, "ALIAS": alias}
+                        tag = "2x%d.%s-%s.sb%d%s%s" % (nc, kind, bkind, sb, ".alias" if alias else "", "" if config == "host" else "." + config)
+                        gs.append(Group(gid="K.%s.%s" % (fn, tag), props=list(props), harness="k_combine.c", function=fn, layer="K", defines=dd, tus=TUS, enforce=[fn],
+                                        unwind=w + 6, bounded=True, bound_note="shape " + tag, shape=tag, config=config, timeout=300 if q else 900))
+    for (dnc, snc) in ((70, 70), (130, 70), (64, 64), (200, 130), (10, 3)):
+        for kind, bkind in (("owned", "view1"), ("view1", "owned")):
+            d = mat(2, dnc, kind)
+            b = mat(2, max(snc, 1), bkind, "B_")
+            b.pop("B_NR"), b.pop("B_NC")
+            dd = {**d, **b, "H_COPY_ROW": None, "SRC_NC": snc, "ASB": 0, "BSB": 0, "CSB": 0}
+            tag = "%d<-%d.%s-%s%s" % (dnc, snc, kind, bkind, "" if config == "host" else "." + config)
+            gs.append(Group(gid="K.mzd_copy_row.%s" % tag, props=list(props), harness="k_combine.c", function="mzd_copy_row", layer="K", defines=dd, tus=TUS, enforce=["mzd_copy_row"],
+                            unwind=8, bounded=True, bound_note="shape " + tag, shape=tag, config=config, timeout=300))
+    return gs
+
+
 PERM_FN = {"LEFT": "mzd_apply_p_left", "LEFT_TRANS": "mzd_apply_p_left_trans", "RIGHT": "mzd_apply_p_right", "RIGHT_TRANS": "mzd_apply_p_right_trans",
            "RIGHT_CAPPED": "mzd_apply_p_right_even_capped", "RIGHT_TRANS_CAPPED": "mzd_apply_p_right_trans_even_capped", "TRI": "mzd_apply_p_right_trans_tri"}
 
@@ -91,4 +122,4 @@ def perm_groups(tier, props=("C13", "C09", "C10", "C11")):
 
 def groups(tier, seed):
     from vplib.core import with_canaries
-    return with_canaries(rowop_groups(tier) + perm_groups(tier))
+    return with_canaries(rowop_groups(tier) + combine_groups(tier) + perm_groups(tier))
